@@ -1,8 +1,10 @@
-import FjallModel.Lemmas.DbLog
+import FjallModel.Lemmas.DbSealed
 namespace Fjall.Db
 open Fjall Fjall.Spec
 
-/-- operations of a database whose journal has not been rotated (no sealed journals) -/
+/-- operations of a database: keyspace creation / deletion, writes, memtable rotation, flush,
+    observed lowering of the persisted seqno, bulk ingestion, journal rotation, journal
+    maintenance (eviction), and reopen -/
 inductive DOp
   | createKs (name : String)
   | deleteKs (id : KsId)
@@ -11,6 +13,8 @@ inductive DOp
   | flushSealed (id : KsId)
   | lowerPersisted (id : KsId) (v : Option Nat)
   | ingest (id : KsId) (items : List (Key × Option Val))
+  | rotateJournal
+  | maintenance
   /-- clean close + open, or process crash + open: with the default journal persist mode the
       files are the same in both cases -/
   | reopen
@@ -24,6 +28,8 @@ def dstep (db : DbL) : DOp → DbL
   | .flushSealed id => db.flushSealed id
   | .lowerPersisted id v => db.lowerPersisted id v
   | .ingest id items => db.ingest id items
+  | .rotateJournal => db.rotateJournal
+  | .maintenance => db.maintenance
   | .reopen => db.recover
 
 /-- writes go through live handles only (deleted handles refuse writes); the observed highest
@@ -38,155 +44,34 @@ def DOp.WF (db : DbL) : DOp → Prop
 instance (db : DbL) (op : DOp) : Decidable (op.WF db) := by
   cases op <;> simp only [DOp.WF] <;> infer_instance
 
-def recsOf (db : DbL) (id : KsId) : List Rec := db.active.recs.filter fun r => r.ks = id
+/-- every record in a journal file that still exists, oldest journal first -/
+def allRecs (db : DbL) : List Rec := db.sealed.flatMap (·.recs) ++ db.active.recs
+
+def recsOf (db : DbL) (id : KsId) : List Rec := (allRecs db).filter fun r => r.ks = id
+
+/-- the journal files in order, as lists of records -/
+def journalsOf (db : DbL) : List (List Rec) := db.sealed.map (·.recs) ++ [db.active.recs]
+
+/-- seqnos strictly increase from one journal file to the next (a batch never spans two files:
+    rotation and writes both hold the journal lock) -/
+def JOrdered (l : List (List Rec)) : Prop := l.Pairwise fun a b => ∀ x ∈ a, ∀ y ∈ b, x.seqno < y.seqno
 
 structure DInv (db : DbL) : Prop where
-  noSealed : db.sealed = []
   nodup : (db.kss.map (·.id)).Nodup
   idsBelow : ∀ k ∈ db.kss, k.id < db.nextKsId
-  recsBelow : ∀ r ∈ db.active.recs, r.ks < db.nextKsId
-  seqJ : ∀ r ∈ db.active.recs, r.seqno < db.seqno
+  recsBelow : ∀ r ∈ allRecs db, r.ks < db.nextKsId
+  seqJ : ∀ r ∈ allRecs db, r.seqno < db.seqno
   seqT : ∀ k ∈ db.kss, ∀ t ∈ k.tables, t.seqno < db.seqno
   cov : ∀ k ∈ db.kss, Cov k (recsOf db k.id)
-
-theorem find_map_id (kss : List KsL) (f : KsL → KsL) (hf : ∀ k, (f k).id = k.id) (id : KsId) :
-    (kss.map f).find? (·.id = id) = (kss.find? (·.id = id)).map f := by
-  induction kss with
-  | nil => rfl
-  | cons k r ih =>
-    simp only [List.map_cons, List.find?_cons, hf]
-    split
-    · rfl
-    · exact ih
-
-theorem updKs_kss (db : DbL) (id : KsId) (f : KsL → KsL) :
-    (db.updKs id f).kss = db.kss.map fun k => if k.id = id then f k else k := rfl
-
-theorem write_kss (db : DbL) (items : List (KsId × LOp)) :
-    (db.write items).kss = db.kss.map fun k =>
-      replayKs k (items.map fun (ks, op) => (⟨db.seqno, ks, op, false⟩ : Rec)) := by
-  simp only [DbL.write, foldl_replayRec]
-
-theorem write_active (db : DbL) (items : List (KsId × LOp)) :
-    (db.write items).active.recs = db.active.recs ++ items.map fun (ks, op) => (⟨db.seqno, ks, op, false⟩ : Rec) := rfl
-
-theorem write_misc (db : DbL) (items : List (KsId × LOp)) :
-    (db.write items).sealed = db.sealed ∧ (db.write items).nextKsId = db.nextKsId := ⟨rfl, rfl⟩
-
-theorem lookup_none (l : List KsL) (id : KsId) (h : id ∉ l.map (·.id)) :
-    (l.filterMap fun k => k.persisted.map fun p => (k.id, p)).lookup id = none := by
-  induction l with
-  | nil => rfl
-  | cons a r ih =>
-    simp only [List.map_cons, List.mem_cons, not_or] at h
-    simp only [List.filterMap_cons]
-    cases hp : a.persisted with
-    | none => simp only [Option.map_none]; exact ih h.2
-    | some p =>
-      simp only [Option.map_some, List.lookup_cons]
-      have : (id == a.id) = false := by simp [h.1]
-      rw [this]; exact ih h.2
-
-/-- the table of highest persisted seqnos taken before replay, looked up for a live keyspace -/
-theorem lookup_pb (l : List KsL) (hnd : (l.map (·.id)).Nodup) (k : KsL) (hk : k ∈ l) :
-    (l.filterMap fun k => k.persisted.map fun p => (k.id, p)).lookup k.id = k.persisted := by
-  induction l with
-  | nil => simp at hk
-  | cons a r ih =>
-    simp only [List.map_cons, List.nodup_cons] at hnd
-    simp only [List.filterMap_cons]
-    simp only [List.mem_cons] at hk
-    rcases hk with rfl | hk
-    · cases hp : k.persisted with
-      | none => simp only [Option.map_none]; exact lookup_none r k.id hnd.1
-      | some p => simp [List.lookup_cons]
-    · have hne : (k.id == a.id) = false := by
-        simp only [beq_eq_false_iff_ne, ne_eq]
-        intro he
-        exact hnd.1 (by rw [← he]; exact List.mem_map.mpr ⟨k, hk, rfl⟩)
-      cases hp : a.persisted with
-      | none => simp only [Option.map_none]; exact ih hnd.2 hk
-      | some p => simp only [Option.map_some, List.lookup_cons, hne]; exact ih hnd.2 hk
-
-def pbOf (db : DbL) : List (KsId × Nat) := db.kss.filterMap fun k => k.persisted.map fun p => (k.id, p)
-
-theorem recover_kss_noSealed (db : DbL) (h : db.sealed = []) :
-    db.recover.kss = db.kss.map fun k =>
-      replayKs { k with sealedMem := [], mem := [] } (db.active.recs.filter (needsReplay (pbOf db))) := by
-  simp only [DbL.recover, h, List.foldl_nil, foldl_replayRec, List.map_map, pbOf, List.filterMap_map]
-  rfl
-
-/-- for a live keyspace the skip rule keeps exactly the records above its highest persisted seqno -/
-theorem replay_filter_ks (db : DbL) (hnd : (db.kss.map (·.id)).Nodup) (k : KsL) (hk : k ∈ db.kss) :
-    (db.active.recs.filter (needsReplay (pbOf db))).filter (fun r => r.ks = k.id)
-      = (recsOf db k.id).filter (above k.persisted) := by
-  simp only [recsOf, List.filter_filter]
-  apply List.filter_congr
-  intro r _
-  by_cases hr : r.ks = k.id
-  · simp only [hr, decide_true, Bool.true_and, Bool.and_true, needsReplay, pbOf]
-    rw [lookup_pb db.kss hnd k hk]
-  · simp [hr]
-
-theorem recover_ks_eq (db : DbL) (hnd : (db.kss.map (·.id)).Nodup) (k : KsL) (hk : k ∈ db.kss) :
-    replayKs { k with sealedMem := [], mem := [] } (db.active.recs.filter (needsReplay (pbOf db)))
-      = replayKs { k with sealedMem := [], mem := [] } ((recsOf db k.id).filter (above k.persisted)) := by
-  rw [replayKs_filter]
-  simp only
-  rw [replay_filter_ks db hnd k hk]
-
-theorem recover_misc_noSealed (db : DbL) (h : db.sealed = []) :
-    db.recover.sealed = [] ∧ db.recover.active = db.active := by
-  simp [DbL.recover, h]
-
-theorem foldl_max_ge (l : List Nat) (a : Nat) : a ≤ l.foldl max a ∧ ∀ x ∈ l, x ≤ l.foldl max a := by
-  induction l generalizing a with
-  | nil => simp
-  | cons y r ih =>
-    obtain ⟨h1, h2⟩ := ih (max a y)
-    simp only [List.foldl_cons]
-    refine ⟨by omega, fun x hx => ?_⟩
-    simp at hx
-    rcases hx with rfl | hx
-    · omega
-    · exact h2 x hx
-
-theorem recover_nextKsId (db : DbL) :
-    (∀ k ∈ db.kss, k.id < db.recover.nextKsId) ∧ (∀ r ∈ db.active.recs, r.ks < db.recover.nextKsId) ∧
-    (∀ j ∈ db.sealed, ∀ r ∈ j.recs, r.ks < db.recover.nextKsId) := by
-  simp only [DbL.recover]
-  have := foldl_max_ge ((db.kss.map (·.id)) ++ (db.sealed.flatMap fun j => j.recs.map (·.ks)) ++ db.active.recs.map (·.ks)) 1
-  refine ⟨fun k hk => ?_, fun r hr => ?_, fun j hj r hr => ?_⟩
-  · have := this.2 k.id (by simp; left; exact ⟨k, hk, rfl⟩)
-    exact Nat.lt_succ_of_le this
-  · have := this.2 r.ks (by simp; right; right; exact ⟨r, hr, rfl⟩)
-    exact Nat.lt_succ_of_le this
-  · have := this.2 r.ks (by simp; right; left; exact ⟨j, hj, r, hr, rfl⟩)
-    exact Nat.lt_succ_of_le this
-
-/-- the seqno counter after recovery is above every seqno in the recovered trees and in every
-    journal record -/
-theorem recover_seqno (db : DbL) :
-    (∀ k ∈ db.recover.kss, ∀ t ∈ k.tables ++ k.sealedMem ++ k.mem, t.seqno < db.recover.seqno) ∧
-    (∀ r ∈ db.active.recs, r.seqno < db.recover.seqno) := by
-  simp only [DbL.recover]
-  generalize hk2 : List.foldl replayRec _ _ = kss2
-  generalize hall : ((kss2.flatMap fun k => (k.tables ++ k.sealedMem ++ k.mem).map (·.seqno)) ++
-    (db.sealed.flatMap fun j => j.recs.map (·.seqno)) ++ db.active.recs.map (·.seqno)) = all
-  have hge := foldl_max_ge all 0
-  have key : ∀ x ∈ all, x < (if (!all.isEmpty) = true then all.foldl max 0 + 1 else 0) := by
-    intro x hx
-    have hne : all.isEmpty = false := by cases all <;> simp_all
-    simp only [hne, Bool.not_false, if_true]
-    exact Nat.lt_succ_of_le (hge.2 x hx)
-  refine ⟨fun k hk t ht => key _ ?_, fun r hr => key _ ?_⟩
-  · rw [← hall]; simp only [List.mem_append, List.mem_flatMap, List.mem_map]
-    left; left; exact ⟨k, hk, t, by simp only [List.mem_append] at ht ⊢; exact ht, rfl⟩
-  · rw [← hall]; simp only [List.mem_append, List.mem_map]
-    right; exact ⟨r, hr, rfl⟩
+  order : JOrdered (journalsOf db)
+  /-- the eviction watermarks of a sealed journal cover every record of it that is still only in
+      memory -/
+  wmOk : ∀ j ∈ db.sealed, ∀ k ∈ db.kss, ∀ r ∈ j.recs, r.ks = k.id → r ∈ k.sealedMem ++ k.mem →
+    ∃ lsn, (k.id, lsn) ∈ j.watermarks ∧ r.seqno ≤ lsn
 
 theorem dinv_init : DInv {} := by
-  refine ⟨rfl, by simp, by simp, by simp, by simp, by simp, by simp⟩
+  refine ⟨by simp, by simp, by simp [allRecs], by simp [allRecs], by simp, by simp, ?_, by simp⟩
+  simp [JOrdered, journalsOf]
 
 theorem filter_append_recs (a b : List Rec) (id : KsId) :
     (a ++ b).filter (fun r => r.ks = id) = a.filter (fun r => r.ks = id) ++ b.filter (fun r => r.ks = id) := by
@@ -196,7 +81,7 @@ theorem recsOf_ks (db : DbL) (id : KsId) : ∀ r ∈ recsOf db id, r.ks = id := 
   intro r hr; simpa using (List.mem_filter.mp hr).2
 
 theorem cov_mem_sub (k : KsL) (rk : List Rec) (h : Cov k rk) : ∀ x ∈ k.sealedMem ++ k.mem, x ∈ rk := by
-  obtain ⟨A, F1, Y, N, hrk, _, hmem, _⟩ := h.struct
+  obtain ⟨A, Z, F1, Y, N, hrk, _, hmem, _⟩ := h.struct
   intro x hx
   rw [hmem] at hx; rw [hrk]
   simp only [List.mem_append] at hx ⊢
@@ -204,14 +89,16 @@ theorem cov_mem_sub (k : KsL) (rk : List Rec) (h : Cov k rk) : ∀ x ∈ k.seale
   · right; left; right; exact hx
   · right; right; exact hx
 
-/-- a per-keyspace update that keeps coverage; the seqno counter may move up to `n'` -/
+/-- a per-keyspace update that keeps coverage and does not add to what is in memory; the seqno
+    counter may move up to `n'` -/
 theorem upd_inv (db : DbL) (id : KsId) (f : KsL → KsL) (n' : Nat) (h : DInv db) (hn : db.seqno ≤ n')
     (hid : ∀ k, (f k).id = k.id)
     (hc : ∀ k ∈ db.kss, k.id = id → Cov (f k) (recsOf db k.id))
-    (hT : ∀ k ∈ db.kss, k.id = id → ∀ t ∈ (f k).tables, t.seqno < n') :
+    (hT : ∀ k ∈ db.kss, k.id = id → ∀ t ∈ (f k).tables, t.seqno < n')
+    (hmem : ∀ k ∈ db.kss, k.id = id → ∀ x ∈ (f k).sealedMem ++ (f k).mem, x ∈ k.sealedMem ++ k.mem) :
     DInv { (db.updKs id f) with seqno := n' } := by
-  obtain ⟨hs, hnd, hib, hrb, hsj, hst, hcov⟩ := h
-  refine ⟨hs, ?_, ?_, hrb, ?_, ?_, ?_⟩
+  obtain ⟨hnd, hib, hrb, hsj, hst, hcov, hord, hwm⟩ := h
+  refine ⟨?_, ?_, hrb, ?_, ?_, ?_, hord, ?_⟩
   · simp only [updKs_kss, List.map_map]
     have : ((fun (x : KsL) => x.id) ∘ fun k => if k.id = id then f k else k) = fun k => k.id := by
       funext k; simp only [Function.comp]; split
@@ -237,17 +124,31 @@ theorem upd_inv (db : DbL) (id : KsId) (f : KsL → KsL) (n' : Nat) (h : DInv db
     simp only [updKs_kss] at hk
     obtain ⟨k0, hk0, rfl⟩ := List.mem_map.mp hk
     have hc0 := hcov k0 hk0
-    simp only [recsOf, DbL.updKs]
+    show Cov _ (recsOf db _)
     split
     · rename_i hi; rw [hid]; exact hc k0 hk0 hi
     · exact hc0
-
-theorem upd_eta (db : DbL) (id : KsId) (f : KsL → KsL) : { (db.updKs id f) with seqno := db.seqno } = db.updKs id f := rfl
+  · intro j hj k hk r hr hrk hrm
+    simp only [updKs_kss] at hk
+    obtain ⟨k0, hk0, rfl⟩ := List.mem_map.mp hk
+    split at hrk
+    · rename_i hi
+      simp only [hi, if_true] at hrm ⊢
+      rw [hid] at hrk ⊢
+      exact hwm j hj k0 hk0 r hr hrk (hmem k0 hk0 hi r hrm)
+    · rename_i hi
+      simp only [hi, if_false] at hrm ⊢
+      exact hwm j hj k0 hk0 r hr hrk hrm
 
 theorem rotate_inv (db : DbL) (id : KsId) (h : DInv db) : DInv (db.rotate id) := by
   have := upd_inv db id sealMem db.seqno h (Nat.le_refl _) (by intro k; unfold sealMem; split <;> rfl)
     (fun k hk _ => cov_rotate k _ (h.cov k hk))
     (fun k hk _ t ht => h.seqT k hk t (by unfold sealMem at ht; split at ht <;> exact ht))
+    (fun k _ _ x hx => by
+      unfold sealMem at hx
+      split at hx
+      · exact hx
+      · simpa using hx)
   exact this
 
 theorem flushSealed_tables_sub (k : KsL) : ∀ t ∈ k.flushSealed.tables, t ∈ k.tables ∨ t ∈ k.sealedMem := by
@@ -256,6 +157,9 @@ theorem flushSealed_tables_sub (k : KsL) : ∀ t ∈ k.flushSealed.tables, t ∈
   rcases ht with ht | ⟨ht, _⟩
   · left; exact ht
   · right; exact ht
+
+theorem recsOf_mem (db : DbL) (id : KsId) (r : Rec) (h : r ∈ recsOf db id) : r ∈ allRecs db :=
+  (List.mem_filter.mp h).1
 
 theorem flushSealed_inv (db : DbL) (id : KsId) (h : DInv db) : DInv (db.flushSealed id) := by
   unfold DbL.flushSealed
@@ -266,7 +170,8 @@ theorem flushSealed_inv (db : DbL) (id : KsId) (h : DInv db) : DInv (db.flushSea
         rcases flushSealed_tables_sub k t ht with h1 | h1
         · exact Nat.lt_succ_of_lt (h.seqT k hk t h1)
         · have := cov_mem_sub k _ (h.cov k hk) t (by simp [h1])
-          exact Nat.lt_succ_of_lt (h.seqJ t (List.mem_filter.mp this).1))
+          exact Nat.lt_succ_of_lt (h.seqJ t (recsOf_mem db _ t this)))
+      (fun k _ _ x hx => by simp only [KsL.flushSealed, List.nil_append] at hx; simp [hx])
   · exact h
 
 /-- after `flush` the keyspace holds nothing in memory -/
@@ -309,137 +214,490 @@ theorem replayKs_tables_sub (k : KsL) (recs : List Rec) : ∀ t ∈ (replayKs k 
     intro t ht
     simp only [replayKs, List.foldl_cons] at ht ih
     have := ih (stepKs r k) t ht
-    have h2 := stepKs_shrinks r k t (by simp [this])
     unfold stepKs applyRec at this
     split at this
     · cases hop : r.op <;> simp [hop] at this <;> exact this
     · exact this
 
+theorem find_of_mem (kss : List KsL) (hnd : (kss.map (·.id)).Nodup) (k : KsL) (hk : k ∈ kss) :
+    kss.find? (·.id = k.id) = some k := by
+  induction kss with
+  | nil => simp at hk
+  | cons a r ih =>
+    simp only [List.map_cons, List.nodup_cons] at hnd
+    simp only [List.mem_cons] at hk
+    simp only [List.find?_cons]
+    rcases hk with rfl | hk
+    · simp
+    · have : a.id ≠ k.id := by
+        intro he
+        exact hnd.1 (by rw [he]; exact List.mem_map.mpr ⟨k, hk, rfl⟩)
+      simp only [this, decide_false]
+      exact ih hnd.2 hk
+
+theorem allRecs_write (db : DbL) (items : List (KsId × LOp)) :
+    allRecs (db.write items) = allRecs db ++ items.map fun (ks, op) => (⟨db.seqno, ks, op, false⟩ : Rec) := by
+  simp [allRecs, DbL.write]
+
+theorem evictPrefix_drop (db : DbL) (l : List JournalL) :
+    ∃ n, evictPrefix db l = l.drop n ∧ ∀ j ∈ l.take n, db.evictable j = true := by
+  induction l with
+  | nil => exact ⟨0, rfl, by simp⟩
+  | cons j rest ih =>
+    by_cases he : db.evictable j = true
+    · obtain ⟨n, h1, h2⟩ := ih
+      refine ⟨n + 1, by simp [evictPrefix, he, h1], ?_⟩
+      intro j' hj'
+      simp only [List.take_succ_cons, List.mem_cons] at hj'
+      rcases hj' with rfl | hj'
+      · exact he
+      · exact h2 j' hj'
+    · exact ⟨0, by simp [evictPrefix, he], by simp⟩
+
+end Fjall.Db
+
+namespace Fjall.Db
+open Fjall Fjall.Spec
+
+theorem jordered_snoc_grow (l : List (List Rec)) (a new : List Rec) (h : JOrdered (l ++ [a]))
+    (hnew : ∀ x ∈ l.flatten, ∀ y ∈ new, x.seqno < y.seqno) : JOrdered (l ++ [a ++ new]) := by
+  unfold JOrdered at h ⊢
+  rw [List.pairwise_append] at h ⊢
+  refine ⟨h.1, List.pairwise_singleton _ _, ?_⟩
+  intro b hb c hc x hx y hy
+  simp only [List.mem_singleton] at hc
+  subst hc
+  simp only [List.mem_append] at hy
+  rcases hy with hy | hy
+  · exact h.2.2 b hb a (by simp) x hx y hy
+  · exact hnew x (List.mem_flatten.mpr ⟨b, hb, hx⟩) y hy
+
+theorem create_inv (db : DbL) (n : String) (h : DInv db) : DInv (db.createKs n).1 := by
+  obtain ⟨hnd, hib, hrb, hsj, hst, hcov, hord, hwm⟩ := h
+  simp only [DbL.createKs]
+  split
+  · exact ⟨hnd, hib, hrb, hsj, hst, hcov, hord, hwm⟩
+  · refine ⟨?_, ?_, ?_, ?_, ?_, ?_, hord, ?_⟩
+    · simp only [List.map_append, List.map_cons, List.map_nil]
+      rw [List.nodup_append]
+      refine ⟨hnd, by simp, ?_⟩
+      intro a ha b hb
+      simp at hb ha
+      obtain ⟨k, hk, rfl⟩ := ha
+      have := hib k hk
+      rw [hb]
+      exact Nat.ne_of_lt this
+    · intro k hk
+      simp at hk
+      rcases hk with hk | rfl
+      · exact Nat.lt_succ_of_lt (hib k hk)
+      · exact Nat.lt_succ_self _
+    · intro r hr; exact Nat.lt_succ_of_lt (hrb r hr)
+    · intro r hr; exact Nat.lt_succ_of_lt (hsj r hr)
+    · intro k hk t ht
+      simp at hk
+      rcases hk with hk | rfl
+      · exact Nat.lt_succ_of_lt (hst k hk t ht)
+      · simp at ht
+    · intro k hk
+      simp at hk
+      rcases hk with hk | rfl
+      · exact hcov k hk
+      · -- a fresh id has no journal records
+        have : recsOf db db.nextKsId = [] := by
+          simp only [recsOf, List.filter_eq_nil_iff]
+          intro r hr
+          have := hrb r hr
+          simp only [decide_eq_true_eq]
+          intro heq
+          rw [heq] at this
+          exact Nat.lt_irrefl _ this
+        show Cov _ (recsOf db db.nextKsId)
+        rw [this]
+        exact cov_fresh _ _
+    · intro j hj k hk r hr hrk hrm
+      simp at hk
+      rcases hk with hk | rfl
+      · exact hwm j hj k hk r hr hrk hrm
+      · simp at hrm
+
+theorem delete_inv (db : DbL) (id : KsId) (h : DInv db) : DInv (db.deleteKs id) := by
+  obtain ⟨hnd, hib, hrb, hsj, hst, hcov, hord, hwm⟩ := h
+  simp only [DbL.deleteKs]
+  refine ⟨?_, ?_, hrb, ?_, ?_, ?_, hord, ?_⟩
+  · exact List.Nodup.sublist (List.Sublist.map _ List.filter_sublist) hnd
+  · intro k hk; exact hib k (List.mem_filter.mp hk).1
+  · intro r hr; exact Nat.lt_of_lt_of_le (hsj r hr) (Nat.le_add_right _ 2)
+  · intro k hk t ht; exact Nat.lt_of_lt_of_le (hst k (List.mem_filter.mp hk).1 t ht) (Nat.le_add_right _ 2)
+  · intro k hk; exact hcov k (List.mem_filter.mp hk).1
+  · intro j hj k hk; exact hwm j hj k (List.mem_filter.mp hk).1
+
+theorem write_inv (db : DbL) (items : List (KsId × LOp)) (h : DInv db)
+    (hwf : ∀ it ∈ items, ∃ k ∈ db.kss, k.id = it.1) : DInv (db.write items) := by
+  obtain ⟨hnd, hib, hrb, hsj, hst, hcov, hord, hwm⟩ := h
+  have hk := write_kss db items
+  have ha := allRecs_write db items
+  obtain ⟨hsl, hni⟩ := write_misc db items
+  have hsq : db.seqno < (db.write items).seqno := by simp only [DbL.write]; split <;> omega
+  generalize hrecs : (items.map fun (ks, op) => (⟨db.seqno, ks, op, false⟩ : Rec)) = recs at hk ha
+  have hrs : ∀ r ∈ recs, r.seqno = db.seqno ∧ r.ing = false := by
+    intro r hr; rw [← hrecs] at hr
+    obtain ⟨it, _, rfl⟩ := List.mem_map.mp hr
+    exact ⟨rfl, rfl⟩
+  refine ⟨?_, ?_, ?_, ?_, ?_, ?_, ?_, ?_⟩
+  · rw [hk, List.map_map]
+    have : ((fun (x : KsL) => x.id) ∘ fun k => replayKs k recs) = fun k => k.id := by funext k; simp [replayKs_id]
+    rw [this]; exact hnd
+  · intro k hkm
+    rw [hk] at hkm
+    obtain ⟨k0, hk0, rfl⟩ := List.mem_map.mp hkm
+    rw [replayKs_id, hni]; exact hib k0 hk0
+  · intro r hr
+    rw [ha] at hr
+    rw [hni]
+    simp only [List.mem_append] at hr
+    rcases hr with hr | hr
+    · exact hrb r hr
+    · rw [← hrecs] at hr
+      obtain ⟨it, hit, rfl⟩ := List.mem_map.mp hr
+      obtain ⟨k, hkk, hid⟩ := hwf it hit
+      simp only
+      rw [← hid]; exact hib k hkk
+  · intro r hr
+    rw [ha] at hr
+    simp only [List.mem_append] at hr
+    rcases hr with hr | hr
+    · exact Nat.lt_trans (hsj r hr) hsq
+    · rw [(hrs r hr).1]; exact hsq
+  · intro k hkm t ht
+    rw [hk] at hkm
+    obtain ⟨k0, hk0, rfl⟩ := List.mem_map.mp hkm
+    exact Nat.lt_trans (hst k0 hk0 t (replayKs_tables_sub k0 _ t ht)) hsq
+  · intro k hkm
+    rw [hk] at hkm
+    obtain ⟨k0, hk0, rfl⟩ := List.mem_map.mp hkm
+    simp only [recsOf, ha, replayKs_id, filter_append_recs]
+    refine cov_replay k0 _ _ db.seqno hrs ?_ ?_ (hcov k0 hk0)
+    · intro x hx; exact Nat.le_of_lt (hsj x (List.mem_filter.mp hx).1)
+    · intro x hx
+      simp only [List.mem_append] at hx
+      rcases hx with hx | hx
+      · have := cov_mem_sub k0 _ (hcov k0 hk0) x (by simp [hx])
+        exact hsj x (recsOf_mem db _ x this)
+      · exact hst k0 hk0 x hx
+  · have e : journalsOf (db.write items) = db.sealed.map (·.recs) ++ [db.active.recs ++ recs] := by
+      simp only [journalsOf, DbL.write, hrecs]
+    rw [e]
+    apply jordered_snoc_grow _ _ _ hord
+    intro x hx y hy
+    rw [(hrs y hy).1]
+    apply hsj x
+    simp only [allRecs, List.mem_append, List.mem_flatMap]
+    left
+    obtain ⟨l, hl, hxl⟩ := List.mem_flatten.mp hx
+    obtain ⟨j, hj, rfl⟩ := List.mem_map.mp hl
+    exact ⟨j, hj, hxl⟩
+  · intro j hj k hkm r hr hrk hrm
+    rw [hsl] at hj
+    rw [hk] at hkm
+    obtain ⟨k0, hk0, rfl⟩ := List.mem_map.mp hkm
+    rw [replayKs_id] at hrk ⊢
+    obtain ⟨_, f2, f3⟩ := replayKs_facts recs k0
+    have hrold : r ∈ k0.sealedMem ++ k0.mem := by
+      simp only [List.mem_append] at hrm ⊢
+      rcases hrm with hrm | hrm
+      · left; exact f2 r hrm
+      · rcases f3 r hrm with h1 | h1
+        · right; exact h1
+        · exfalso
+          have h2 : r.seqno < db.seqno := hsj r (by
+            simp only [allRecs, List.mem_append, List.mem_flatMap]; left; exact ⟨j, hj, hr⟩)
+          rw [(hrs r h1).1] at h2
+          exact Nat.lt_irrefl _ h2
+    have hws : (db.write items).sealed = db.sealed := hsl
+    exact hwm j hj k0 hk0 r hr hrk hrold
+
+theorem rotateJournal_inv (db : DbL) (h : DInv db) : DInv db.rotateJournal := by
+  obtain ⟨hnd, hib, hrb, hsj, hst, hcov, hord, hwm⟩ := h
+  have ha : allRecs db.rotateJournal = allRecs db := by simp [allRecs, DbL.rotateJournal]
+  refine ⟨hnd, hib, by rw [ha]; exact hrb, by rw [ha]; exact hsj, hst, ?_, ?_, ?_⟩
+  · intro k hk
+    show Cov k ((allRecs db.rotateJournal).filter _)
+    rw [ha]; exact hcov k hk
+  · have e : journalsOf db.rotateJournal = journalsOf db ++ [[]] := by
+      simp [journalsOf, DbL.rotateJournal]
+    rw [e]
+    unfold JOrdered
+    rw [List.pairwise_append]
+    exact ⟨hord, List.pairwise_singleton _ _, by intro a _ b hb; simp at hb; subst hb; simp⟩
+  · intro j hj k hk r hr hrk hrm
+    simp only [DbL.rotateJournal, List.mem_append, List.mem_singleton] at hj
+    rcases hj with hj | rfl
+    · exact hwm j hj k hk r hr hrk hrm
+    · -- the journal sealed just now: its watermarks are the highest memtable seqnos
+      simp only
+      rcases maxSeqno_spec (k.sealedMem ++ k.mem) with ⟨he, _⟩ | ⟨m, hm, hall, _⟩
+      · rw [he] at hrm; cases hrm
+      · refine ⟨m, ?_, hall r hrm⟩
+        simp only [List.mem_filterMap]
+        exact ⟨k, hk, by simp [KsL.memHighest, hm]⟩
+
+theorem maintenance_inv (db : DbL) (h : DInv db) : DInv db.maintenance := by
+  obtain ⟨hnd, hib, hrb, hsj, hst, hcov, hord, hwm⟩ := h
+  obtain ⟨n, hdrop, hev⟩ := evictPrefix_drop db db.sealed
+  have hsealed : db.maintenance.sealed = db.sealed.drop n := hdrop
+  have hsplit : allRecs db = (db.sealed.take n).flatMap (·.recs) ++ allRecs db.maintenance := by
+    simp only [allRecs, DbL.maintenance, hdrop]
+    rw [← List.append_assoc, ← List.flatMap_append, List.take_append_drop]
+  have hsub : ∀ r ∈ allRecs db.maintenance, r ∈ allRecs db := by
+    intro r hr; rw [hsplit]; simp [hr]
+  refine ⟨hnd, hib, fun r hr => hrb r (hsub r hr), fun r hr => hsj r (hsub r hr), hst, ?_, ?_, ?_⟩
+  · intro k hk
+    have hc := hcov k hk
+    have e : recsOf db k.id = ((db.sealed.take n).flatMap (·.recs)).filter (fun r => r.ks = k.id) ++ recsOf db.maintenance k.id := by
+      simp only [recsOf]; rw [hsplit, List.filter_append]
+    refine cov_evict k _ _ _ hc e ?_
+    intro d hd hdm
+    obtain ⟨hd1, hd2⟩ := List.mem_filter.mp hd
+    obtain ⟨j, hj, hdj⟩ := List.mem_flatMap.mp hd1
+    have hjs : j ∈ db.sealed := List.mem_of_mem_take hj
+    have hdk : d.ks = k.id := by simpa using hd2
+    obtain ⟨lsn, hw, hle⟩ := hwm j hjs k hk d hdj hdk hdm
+    have hevj := hev j hj
+    simp only [DbL.evictable, List.all_eq_true] at hevj
+    have := hevj (k.id, lsn) hw
+    simp only [DbL.find, find_of_mem db.kss hnd k hk, KsL.flushedUpTo, Bool.or_eq_true, Bool.and_eq_true,
+      List.isEmpty_iff] at this
+    rcases this with h1 | ⟨h1, h2⟩
+    · cases hp : k.persisted with
+      | none => rw [hp] at h1; simp at h1
+      | some p =>
+        rw [hp] at h1
+        have hab := hc.persMem d hdm
+        rw [hp] at hab
+        simp only [above, decide_eq_true_eq] at hab h1
+        omega
+    · rw [h1, h2] at hdm; cases hdm
+  · have e : journalsOf db.maintenance = (db.sealed.drop n).map (·.recs) ++ [db.active.recs] := by
+      simp only [journalsOf, hsealed]; rfl
+    rw [e]
+    refine List.Pairwise.sublist ?_ hord
+    simp only [journalsOf]
+    exact List.Sublist.append (List.Sublist.map _ (List.drop_sublist n _)) (List.Sublist.refl _)
+  · intro j hj k hk
+    rw [hsealed] at hj
+    exact hwm j (List.mem_of_mem_drop hj) k hk
+
+end Fjall.Db
+
+namespace Fjall.Db
+open Fjall Fjall.Spec
+
+theorem sealedAfter_mem (pb : List (KsId × Nat)) (js : List JournalL) (kss : List KsL) :
+    ∀ j' ∈ sealedAfter pb kss js, ∃ j ∈ js, ∃ kssx : List KsL, kssx.map (·.id) = kss.map (·.id) ∧
+      j' = { j with watermarks := replayWatermarks kssx (j.recs.filter (needsReplay pb)) } := by
+  induction js generalizing kss with
+  | nil => intro j' hj'; simp [sealedAfter] at hj'
+  | cons j js ih =>
+    intro j' hj'
+    simp only [sealedAfter, List.mem_cons] at hj'
+    rcases hj' with rfl | hj'
+    · exact ⟨j, by simp, _, replay_ids kss _, rfl⟩
+    · obtain ⟨j0, hj0, kssx, hx, he⟩ := ih _ j' hj'
+      refine ⟨j0, by simp [hj0], kssx, ?_, he⟩
+      rw [hx, sealAfterReplay_ids, replay_ids]
+
+theorem sealedAfter_recs (pb : List (KsId × Nat)) (js : List JournalL) (kss : List KsL) :
+    (sealedAfter pb kss js).map (·.recs) = js.map (·.recs) := by
+  induction js generalizing kss with
+  | nil => rfl
+  | cons j js ih => simp only [sealedAfter, List.map_cons]; rw [ih]
+
+theorem flatMap_recs_eq (a b : List JournalL) (h : a.map (·.recs) = b.map (·.recs)) :
+    a.flatMap (·.recs) = b.flatMap (·.recs) := by
+  have e : ∀ l : List JournalL, l.flatMap (·.recs) = (l.map (·.recs)).flatten := by
+    intro l; induction l with
+    | nil => rfl
+    | cons x xs ih => simp [List.flatMap_cons, ih]
+  rw [e, e, h]
+
+theorem recover_allRecs (db : DbL) : allRecs db.recover = allRecs db := by
+  have h1 : db.recover.active = db.active := by simp [DbL.recover]
+  simp only [allRecs, h1]
+  rw [flatMap_recs_eq db.recover.sealed db.sealed (by rw [recover_sealed_eq, sealedAfter_recs])]
+
+theorem recover_journalsOf (db : DbL) : journalsOf db.recover = journalsOf db := by
+  have h1 : db.recover.active = db.active := by simp [DbL.recover]
+  simp only [journalsOf, h1]
+  rw [recover_sealed_eq, sealedAfter_recs]
+
+/-- the seqno counter after recovery is above every seqno in the recovered trees and in every
+    journal record -/
+theorem recover_seqno (db : DbL) :
+    (∀ k ∈ db.recover.kss, ∀ t ∈ k.tables ++ k.sealedMem ++ k.mem, t.seqno < db.recover.seqno) ∧
+    (∀ r ∈ allRecs db, r.seqno < db.recover.seqno) := by
+  simp only [DbL.recover, allRecs]
+  generalize hk2 : List.foldl replayRec _ _ = kss2
+  generalize hall : ((kss2.flatMap fun k => (k.tables ++ k.sealedMem ++ k.mem).map (·.seqno)) ++
+    (db.sealed.flatMap fun j => j.recs.map (·.seqno)) ++ db.active.recs.map (·.seqno)) = all
+  have hge := foldl_max_ge all 0
+  have key : ∀ x ∈ all, x < (if (!all.isEmpty) = true then all.foldl max 0 + 1 else 0) := by
+    intro x hx
+    have hne : all.isEmpty = false := by cases all <;> simp_all
+    simp only [hne, Bool.not_false, if_true]
+    exact Nat.lt_succ_of_le (hge.2 x hx)
+  refine ⟨fun k hk t ht => key _ ?_, fun r hr => key _ ?_⟩
+  · rw [← hall]; simp only [List.mem_append, List.mem_flatMap, List.mem_map]
+    left; left; exact ⟨k, hk, t, by simp only [List.mem_append] at ht ⊢; exact ht, rfl⟩
+  · rw [← hall]; simp only [List.mem_append, List.mem_flatMap, List.mem_map] at hr ⊢
+    rcases hr with ⟨j, hj, hr⟩ | hr
+    · left; right; exact ⟨j, hj, r, hr, rfl⟩
+    · right; exact ⟨r, hr, rfl⟩
+
+theorem recover_inv (db : DbL) (h : DInv db) : DInv db.recover := by
+  obtain ⟨hnd, hib, hrb, hsj, hst, hcov, hord, hwm⟩ := h
+  have hk := recover_kss_eq db hnd
+  have ha := recover_allRecs db
+  obtain ⟨n1, n2, n3⟩ := recover_nextKsId db
+  obtain ⟨q1, q2⟩ := recover_seqno db
+  -- per keyspace
+  have hper : ∀ k ∈ db.kss,
+      let kfin := replayKs (db.sealed.foldl (journalKs (pbOf db)) { k with sealedMem := [], mem := [] })
+        (db.active.recs.filter (needsReplay (pbOf db)))
+      let flat := replayKs { k with sealedMem := [], mem := [] } ((recsOf db k.id).filter (above k.persisted))
+      Rel kfin flat ∧ (∀ x ∈ kfin.sealedMem, x ∈ db.sealed.flatMap (·.recs)) ∧ (∀ y ∈ kfin.mem, y ∈ db.active.recs) := by
+    intro k hkm
+    exact recover_ks_general (pbOf db) k (lookup_pb db.kss hnd k hkm) db.sealed db.active.recs _ rfl
+  refine ⟨?_, ?_, ?_, ?_, ?_, ?_, ?_, ?_⟩
+  · rw [hk, List.map_map]
+    have : ((fun (x : KsL) => x.id) ∘ fun (k : KsL) => replayKs (db.sealed.foldl (journalKs (pbOf db)) { k with sealedMem := [], mem := [] })
+        (db.active.recs.filter (needsReplay (pbOf db)))) = fun k => k.id := by
+      funext k
+      simp only [Function.comp]
+      have := (hper k)
+      rw [replayKs_id]
+      -- the fold keeps the id
+      have hf : ∀ (js : List JournalL) (s : KsL), (js.foldl (journalKs (pbOf db)) s).id = s.id := by
+        intro js
+        induction js with
+        | nil => intro s; rfl
+        | cons j js ih =>
+          intro s
+          simp only [List.foldl_cons]
+          rw [ih]
+          simp only [journalKs]
+          split
+          · rw [replayKs_id]
+          · split
+            · split
+              · simp [replayKs_id]
+              · unfold sealMem; split <;> rw [replayKs_id]
+            · unfold sealMem; split <;> rw [replayKs_id]
+      rw [hf]
+    rw [this]; exact hnd
+  · intro k hkm
+    rw [hk] at hkm
+    obtain ⟨k0, hk0, rfl⟩ := List.mem_map.mp hkm
+    rw [(hper k0 hk0).1.id, replayKs_id]; exact n1 k0 hk0
+  · intro r hr
+    rw [ha] at hr
+    simp only [allRecs, List.mem_append, List.mem_flatMap] at hr
+    rcases hr with ⟨j, hj, hr⟩ | hr
+    · exact n3 j hj r hr
+    · exact n2 r hr
+  · intro r hr; rw [ha] at hr; exact q2 r hr
+  · intro k hkm t ht; exact q1 k hkm t (by simp [ht])
+  · intro k hkm
+    rw [hk] at hkm
+    obtain ⟨k0, hk0, rfl⟩ := List.mem_map.mp hkm
+    obtain ⟨hrel, hS, hM⟩ := hper k0 hk0
+    show Cov _ (recsOf db.recover _)
+    have hrec : recsOf db.recover (replayKs (db.sealed.foldl (journalKs (pbOf db)) { k0 with sealedMem := [], mem := [] })
+        (db.active.recs.filter (needsReplay (pbOf db)))).id = recsOf db k0.id := by
+      rw [hrel.id, replayKs_id]; simp only [recsOf, ha]
+    rw [hrec]
+    have hflat := cov_recovered k0 _ (recsOf_ks db k0.id) (hcov k0 hk0)
+    rw [rel_eq _ _ hrel]
+    refine cov_repartition _ _ _ _ hflat hrel.memory ?_
+    intro x hx y hy
+    obtain ⟨j, hj, hxj⟩ := List.mem_flatMap.mp (hS x hx)
+    have hyA := hM y hy
+    have := hord
+    simp only [JOrdered, journalsOf, List.pairwise_append] at this
+    exact this.2.2 j.recs (List.mem_map.mpr ⟨j, hj, rfl⟩) db.active.recs (by simp) x hxj y hyA
+  · rw [recover_journalsOf]; exact hord
+  · intro j' hj' kf hkf r hr hrk hrm
+    rw [recover_sealed_eq] at hj'
+    obtain ⟨j, hj, kssx, hx, rfl⟩ := sealedAfter_mem _ _ _ j' hj'
+    rw [hk] at hkf
+    obtain ⟨k0, hk0, rfl⟩ := List.mem_map.mp hkf
+    obtain ⟨hrel, _, _⟩ := hper k0 hk0
+    have hidf : (replayKs (db.sealed.foldl (journalKs (pbOf db)) { k0 with sealedMem := [], mem := [] })
+        (db.active.recs.filter (needsReplay (pbOf db)))).id = k0.id := by rw [hrel.id, replayKs_id]
+    rw [hidf] at hrk ⊢
+    simp only at hr ⊢
+    -- `r` is in memory after recovery, so it passed the skip rule
+    have hab : above k0.persisted r = true := by
+      rw [hrel.memory] at hrm
+      obtain ⟨_, f2, f3⟩ := replayKs_facts ((recsOf db k0.id).filter (above k0.persisted)) { k0 with sealedMem := [], mem := [] }
+      simp only [List.mem_append] at hrm
+      rcases hrm with h1 | h1
+      · have := f2 r h1; simp at this
+      · rcases f3 r h1 with h2 | h2
+        · simp at h2
+        · exact (List.mem_filter.mp h2).2
+    have hneed : needsReplay (pbOf db) r = true := by
+      have hl : (pbOf db).lookup k0.id = k0.persisted := lookup_pb db.kss hnd k0 hk0
+      simp only [needsReplay, hrk, hl]; exact hab
+    have hmine : r ∈ (j.recs.filter (needsReplay (pbOf db))).filter (fun r => r.ks = k0.id) := by
+      simp only [List.mem_filter, decide_eq_true_eq]; exact ⟨⟨hr, hneed⟩, hrk⟩
+    -- some keyspace state with this id is in the list the watermarks were computed from
+    have hidin : k0.id ∈ kssx.map (·.id) := by
+      rw [hx, List.map_map]
+      exact List.mem_map.mpr ⟨k0, hk0, rfl⟩
+    obtain ⟨k1, hk1, hk1id⟩ := List.mem_map.mp hidin
+    refine ⟨((j.recs.filter (needsReplay (pbOf db))).filter (fun r => r.ks = k0.id)).foldl (fun a r => max a r.seqno) 0, ?_,
+      (foldl_max_seq _ 0).2 r hmine⟩
+    simp only [replayWatermarks, List.mem_filterMap]
+    refine ⟨k1, hk1, ?_⟩
+    have hne : ((j.recs.filter (needsReplay (pbOf db))).filter (fun r => r.ks = k0.id)).isEmpty = false := by
+      cases hl : (j.recs.filter (needsReplay (pbOf db))).filter (fun r => r.ks = k0.id) with
+      | nil => rw [hl] at hmine; cases hmine
+      | cons _ _ => rfl
+    simp only [hk1id]
+    rw [if_neg (by rw [hne]; simp)]
+
 theorem dstep_inv (db : DbL) (op : DOp) (h : DInv db) (hwf : op.WF db) : DInv (dstep db op) := by
-  obtain ⟨hs, hnd, hib, hrb, hsj, hst, hcov⟩ := h
   cases op with
-  | createKs n =>
-    simp only [dstep, DbL.createKs]
-    split
-    · exact ⟨hs, hnd, hib, hrb, hsj, hst, hcov⟩
-    · refine ⟨hs, ?_, ?_, ?_, ?_, ?_, ?_⟩
-      · simp only [List.map_append, List.map_cons, List.map_nil]
-        rw [List.nodup_append]
-        refine ⟨hnd, by simp, ?_⟩
-        intro a ha b hb
-        simp at hb ha
-        obtain ⟨k, hk, rfl⟩ := ha
-        have := hib k hk
-        rw [hb]
-        exact Nat.ne_of_lt this
-      · intro k hk
-        simp at hk
-        rcases hk with hk | rfl
-        · exact Nat.lt_succ_of_lt (hib k hk)
-        · exact Nat.lt_succ_self _
-      · intro r hr; exact Nat.lt_succ_of_lt (hrb r hr)
-      · intro r hr; exact Nat.lt_succ_of_lt (hsj r hr)
-      · intro k hk t ht
-        simp at hk
-        rcases hk with hk | rfl
-        · exact Nat.lt_succ_of_lt (hst k hk t ht)
-        · simp at ht
-      · intro k hk
-        simp at hk
-        rcases hk with hk | rfl
-        · exact hcov k hk
-        · -- a fresh id has no journal records
-          have : recsOf db db.nextKsId = [] := by
-            simp only [recsOf, List.filter_eq_nil_iff]
-            intro r hr
-            have := hrb r hr
-            simp only [decide_eq_true_eq]
-            intro heq
-            rw [heq] at this
-            exact Nat.lt_irrefl _ this
-          simp only [recsOf] at this ⊢
-          rw [this]
-          exact cov_fresh _ _
-  | deleteKs id =>
-    simp only [dstep, DbL.deleteKs]
-    refine ⟨hs, ?_, ?_, hrb, ?_, ?_, ?_⟩
-    · exact List.Nodup.sublist (List.Sublist.map _ List.filter_sublist) hnd
-    · intro k hk; exact hib k (List.mem_filter.mp hk).1
-    · intro r hr; exact Nat.lt_of_lt_of_le (hsj r hr) (Nat.le_add_right _ 2)
-    · intro k hk t ht; exact Nat.lt_of_lt_of_le (hst k (List.mem_filter.mp hk).1 t ht) (Nat.le_add_right _ 2)
-    · intro k hk; exact hcov k (List.mem_filter.mp hk).1
-  | write items =>
-    have hk := write_kss db items
-    have ha := write_active db items
-    obtain ⟨hsl, hni⟩ := write_misc db items
-    have hsq : db.seqno < (db.write items).seqno := by simp only [DbL.write]; split <;> omega
-    simp only [dstep]
-    refine ⟨by rw [hsl]; exact hs, ?_, ?_, ?_, ?_, ?_, ?_⟩
-    · rw [hk, List.map_map]
-      have : ((fun (x : KsL) => x.id) ∘ fun k => replayKs k (items.map fun (ks, op) => (⟨db.seqno, ks, op, false⟩ : Rec)))
-          = fun k => k.id := by funext k; simp [replayKs_id]
-      rw [this]; exact hnd
-    · intro k hkm
-      rw [hk] at hkm
-      obtain ⟨k0, hk0, rfl⟩ := List.mem_map.mp hkm
-      rw [replayKs_id, hni]; exact hib k0 hk0
-    · intro r hr
-      rw [ha] at hr
-      rw [hni]
-      simp only [List.mem_append, List.mem_map] at hr
-      rcases hr with hr | ⟨it, hit, rfl⟩
-      · exact hrb r hr
-      · obtain ⟨k, hkk, hid⟩ := hwf it hit
-        simp only
-        rw [← hid]; exact hib k hkk
-    · intro r hr
-      rw [ha] at hr
-      simp only [List.mem_append, List.mem_map] at hr
-      rcases hr with hr | ⟨it, hit, rfl⟩
-      · exact Nat.lt_trans (hsj r hr) hsq
-      · exact hsq
-    · intro k hkm t ht
-      rw [hk] at hkm
-      obtain ⟨k0, hk0, rfl⟩ := List.mem_map.mp hkm
-      exact Nat.lt_trans (hst k0 hk0 t (replayKs_tables_sub k0 _ t ht)) hsq
-    · intro k hkm
-      rw [hk] at hkm
-      obtain ⟨k0, hk0, rfl⟩ := List.mem_map.mp hkm
-      simp only [recsOf, ha, replayKs_id, filter_append_recs]
-      refine cov_replay k0 _ _ db.seqno ?_ ?_ ?_ (hcov k0 hk0)
-      · intro r hr
-        obtain ⟨it, _, rfl⟩ := List.mem_map.mp hr
-        exact ⟨rfl, rfl⟩
-      · intro x hx; exact Nat.le_of_lt (hsj x (List.mem_filter.mp hx).1)
-      · intro x hx
-        simp only [List.mem_append] at hx
-        rcases hx with hx | hx
-        · have := cov_mem_sub k0 _ (hcov k0 hk0) x (by simp [hx])
-          exact hsj x (List.mem_filter.mp this).1
-        · exact hst k0 hk0 x hx
-  | rotate id => exact rotate_inv db id ⟨hs, hnd, hib, hrb, hsj, hst, hcov⟩
-  | flushSealed id => exact flushSealed_inv db id ⟨hs, hnd, hib, hrb, hsj, hst, hcov⟩
+  | createKs n => exact create_inv db n h
+  | deleteKs id => exact delete_inv db id h
+  | write items => exact write_inv db items h hwf
+  | rotate id => exact rotate_inv db id h
+  | flushSealed id => exact flushSealed_inv db id h
   | lowerPersisted id v =>
     have hlid : ∀ k : KsL, (k.lowerPersisted v).id = k.id := by
       intro k; simp only [KsL.lowerPersisted]; split <;> (try split) <;> rfl
     have hlt : ∀ k : KsL, (k.lowerPersisted v).tables = k.tables := by
       intro k; simp only [KsL.lowerPersisted]; split <;> (try split) <;> rfl
-    exact upd_inv db id (·.lowerPersisted v) db.seqno ⟨hs, hnd, hib, hrb, hsj, hst, hcov⟩ (Nat.le_refl _) hlid
-      (fun k hk hi => cov_lower k _ v (hcov k hk) (hwf k hk hi))
-      (fun k hk _ t ht => hst k hk t (by rw [hlt] at ht; exact ht))
+    have hlm : ∀ k : KsL, (k.lowerPersisted v).sealedMem ++ (k.lowerPersisted v).mem = k.sealedMem ++ k.mem := by
+      intro k; simp only [KsL.lowerPersisted]; split <;> (try split) <;> rfl
+    exact upd_inv db id (·.lowerPersisted v) db.seqno h (Nat.le_refl _) hlid
+      (fun k hk hi => cov_lower k _ v (h.cov k hk) (hwf k hk hi))
+      (fun k hk _ t ht => h.seqT k hk t (by rw [hlt] at ht; exact ht))
+      (fun k _ _ x hx => by rw [hlm] at hx; exact hx)
   | ingest id items =>
     simp only [dstep, DbL.ingest]
     split
-    · exact ⟨hs, hnd, hib, hrb, hsj, hst, hcov⟩
+    · exact h
     · rename_i hne
-      have h1 : DInv (db.flush id) := flushSealed_inv _ id (rotate_inv db id ⟨hs, hnd, hib, hrb, hsj, hst, hcov⟩)
+      have h1 : DInv (db.flush id) := flushSealed_inv _ id (rotate_inv db id h)
       have hemp := flush_mem_empty db id
       have hne' : items.map (fun (x : Key × Option Val) => (⟨(db.flush id).seqno, id,
           match x.2 with | some v => LOp.put x.1 v | none => LOp.del x.1, true⟩ : Rec)) ≠ [] := by
         cases items with
         | nil => simp at hne
         | cons _ _ => simp
-      refine upd_inv (db.flush id) id _ ((db.flush id).seqno + 1) h1 (Nat.le_succ _) (fun k => rfl) ?_ ?_
+      refine upd_inv (db.flush id) id _ ((db.flush id).seqno + 1) h1 (Nat.le_succ _) (fun k => rfl) ?_ ?_ (fun k _ _ x hx => hx)
       · intro k hk hi
         obtain ⟨e1, e2⟩ := hemp k hk hi
         refine cov_ingest k _ _ (db.flush id).seqno (h1.cov k hk) e1 e2 hne' ?_ (h1.seqT k hk) ?_
@@ -449,36 +707,15 @@ theorem dstep_inv (db : DbL) (op : DOp) (h : DInv db) (hwf : op.WF db) : DInv (d
           cases hv : it.2 with
           | none => rw [hv] at this; simp at this
           | some v => exact ⟨rfl, rfl, rfl, rfl⟩
-        · intro r hr; exact Nat.le_of_lt (h1.seqJ r (List.mem_filter.mp hr).1)
+        · intro r hr; exact Nat.le_of_lt (h1.seqJ r (recsOf_mem _ _ r hr))
       · intro k hk _ t ht
         simp only [List.mem_append, List.mem_map] at ht
         rcases ht with ht | ⟨it, _, rfl⟩
         · exact Nat.lt_succ_of_lt (h1.seqT k hk t ht)
         · exact Nat.lt_succ_self _
-  | reopen =>
-    simp only [dstep]
-    have hk := recover_kss_noSealed db hs
-    obtain ⟨hsl, hact⟩ := recover_misc_noSealed db hs
-    obtain ⟨n1, n2, _⟩ := recover_nextKsId db
-    obtain ⟨q1, q2⟩ := recover_seqno db
-    refine ⟨hsl, ?_, ?_, ?_, ?_, ?_, ?_⟩
-    · rw [hk, List.map_map]
-      have : ((fun (x : KsL) => x.id) ∘ fun (k : KsL) => replayKs { k with sealedMem := [], mem := [] }
-          (db.active.recs.filter (needsReplay (pbOf db)))) = fun k => k.id := by funext k; simp [replayKs_id]
-      rw [this]; exact hnd
-    · intro k hkm
-      rw [hk] at hkm
-      obtain ⟨k0, hk0, rfl⟩ := List.mem_map.mp hkm
-      rw [replayKs_id]; exact n1 k0 hk0
-    · intro r hr; rw [hact] at hr; exact n2 r hr
-    · intro r hr; rw [hact] at hr; exact q2 r hr
-    · intro k hkm t ht; exact q1 k hkm t (by simp [ht])
-    · intro k hkm
-      rw [hk] at hkm
-      obtain ⟨k0, hk0, rfl⟩ := List.mem_map.mp hkm
-      simp only [recsOf, hact, replayKs_id]
-      rw [recover_ks_eq db hnd k0 hk0]
-      exact cov_recovered k0 _ (recsOf_ks db k0.id) (hcov k0 hk0)
+  | rotateJournal => exact rotateJournal_inv db h
+  | maintenance => exact maintenance_inv db h
+  | reopen => exact recover_inv db h
 
 def drun (db : DbL) : List DOp → DbL
   | [] => db
@@ -502,17 +739,41 @@ theorem drun_inv (db : DbL) (ops : List DOp) (h : DInv db) (hwf : ProgWF db ops)
   | nil => exact h
   | cons o os ih => exact ih _ (dstep_inv db o h hwf.1) hwf.2
 
-/-- reopening reproduces the content of every keyspace -/
+/-- **reopening reproduces the content of every keyspace**, with any number of sealed journals,
+    some of them already evicted -/
 theorem recover_abs (db : DbL) (h : DInv db) (id : KsId) : (db.recover.absOf id).Equiv (db.absOf id) := by
   simp only [DbL.absOf, DbL.find]
-  rw [recover_kss_noSealed db h.noSealed]
-  rw [find_map_id _ _ (fun k => by simp [replayKs_id])]
+  rw [recover_kss_eq db h.nodup]
+  have hidf : ∀ (k : KsL), (replayKs (db.sealed.foldl (journalKs (pbOf db)) { k with sealedMem := [], mem := [] })
+      (db.active.recs.filter (needsReplay (pbOf db)))).id = k.id := by
+    intro k
+    rw [replayKs_id]
+    have hf : ∀ (js : List JournalL) (s : KsL), (js.foldl (journalKs (pbOf db)) s).id = s.id := by
+      intro js
+      induction js with
+      | nil => intro s; rfl
+      | cons j js ih =>
+        intro s
+        simp only [List.foldl_cons]
+        rw [ih]
+        simp only [journalKs]
+        split
+        · rw [replayKs_id]
+        · split
+          · split
+            · simp [replayKs_id]
+            · unfold sealMem; split <;> rw [replayKs_id]
+          · unfold sealMem; split <;> rw [replayKs_id]
+    rw [hf]
+  rw [find_map_id _ _ hidf]
   cases hf : db.kss.find? (·.id = id) with
   | none => exact KMap.Equiv.refl _
   | some k =>
     simp only [Option.map_some]
     have hk := List.mem_of_find?_eq_some hf
-    rw [recover_ks_eq db h.nodup k hk]
-    exact recover_ks_abs k _ (recsOf_ks db k.id) (h.cov k hk)
+    obtain ⟨hrel, _, _⟩ := recover_ks_general (pbOf db) k (lookup_pb db.kss h.nodup k hk) db.sealed db.active.recs _ rfl
+    have hflat := recover_ks_abs k _ (recsOf_ks db k.id) (h.cov k hk)
+    rw [rel_eq _ _ hrel, abs_repartition _ _ _ hrel.memory]
+    exact hflat
 
 end Fjall.Db
